@@ -56,7 +56,10 @@ func init() {
 		}
 		for n := 1; n <= maxN; n++ {
 			for hasElse := 0; hasElse < 2; hasElse++ {
-				for mask := 0; mask < 1<<n; mask++ {
+				for mask2 := 0; mask2 < 2<<n; mask2++ {
+					mask := mask2 % (1 << n)
+					unknownVariant := mask2 >= 1<<n
+					unknownAt := map[int]bool{}
 					binds := []Bind{{"blk", vGo(103)}}
 					var sb strings.Builder
 					sb.WriteString("<%= ")
@@ -67,10 +70,16 @@ func init() {
 							ret = []VD{vBool(false), vNil(), vStr(""), VD{K: "nilptr", Tn: "T0"}}[(i+mask)%4]
 						}
 						binds = append(binds, Bind{fmt.Sprintf("c%d", i+1), vGo(101, vInt(i+1), ret)})
+						cond := fmt.Sprintf("c%d()", i+1)
+						if !truth && unknownVariant {
+							// a falsy condition spelled as an unknown identifier (not logged)
+							cond = fmt.Sprintf("nope%d", i+1)
+							unknownAt[i] = true
+						}
 						if i == 0 {
-							sb.WriteString(fmt.Sprintf("if (c1()) { %%>B1<%% }"))
+							sb.WriteString("if (" + cond + ") { %>B1<% }")
 						} else {
-							sb.WriteString(fmt.Sprintf(" else if (c%d()) { %%>B%d<%% }", i+1, i+1))
+							sb.WriteString(fmt.Sprintf(" else if (%s) { %%>B%d<%% }", cond, i+1))
 						}
 					}
 					if hasElse == 1 {
@@ -102,9 +111,15 @@ func init() {
 						if wi == 3 {
 							wo = "[" + wantOut + "]"
 						}
-						bad := o.Class != "OK" || o.Out != wo || len(o.Log) != wantLog
+						var wantIds []string
+						for i := 0; i < wantLog; i++ {
+							if !unknownAt[i] {
+								wantIds = append(wantIds, fmt.Sprintf("i%d", i+1))
+							}
+						}
+						bad := o.Class != "OK" || o.Out != wo || len(o.Log) != len(wantIds)
 						for i, l := range o.Log {
-							if i < wantLog && (l.Id != 101 || l.Args[0] != fmt.Sprintf("i%d", i+1)) {
+							if i < len(wantIds) && (l.Id != 101 || l.Args[0] != wantIds[i]) {
 								bad = true
 							}
 						}
